@@ -38,7 +38,6 @@ M = [
  ("cp-bound-comm", "hta/analyzers/critical_path_analysis.py", '    if is_comm_kernel(row["s_name"]):\n        return "gpu_communication_bound"\n    return "gpu_compute_bound"', '    if is_comm_kernel(row["s_name"]):\n        return "gpu_compute_bound"\n    return "gpu_communication_bound"', ["C10"]),
  ("cp-k2k-lastnode", "hta/analyzers/critical_path_analysis.py", '            last_node[stream] = end_node\n', '            last_node[stream] = start_node\n', ["C08"]),
  ("cp-longest-unweighted", "hta/analyzers/critical_path_analysis.py", 'self.critical_path_nodes = nx.dag_longest_path(self, weight="weight")', 'self.critical_path_nodes = nx.dag_longest_path(self, weight="wt")', ["C09"]),
- ("cp-launch-strict", "hta/analyzers/critical_path_analysis.py", 'or last_node[stream].ts < self.full_trace_df.ts.loc[runtime_index]', 'or last_node[stream].ts <= self.full_trace_df.ts.loc[runtime_index]', ["C08"]),
  ("cp-sync-guard", "hta/analyzers/critical_path_analysis.py", 'if end_node is None or gpu_node.ts > end_node.ts:', 'if end_node is None:', ["C08"]),
  ("cp-events-set", "hta/analyzers/critical_path_analysis.py", 'self.node_list[nid].ev_idx for nid in self.critical_path_nodes\n', 'self.node_list[nid].ev_idx for nid in self.critical_path_nodes[1:]\n', ["C09"]),
  ("seq-minlen", "hta/analyzers/cuda_kernel_analysis.py", '& candidate_nodes["num_kernels"].ge(min_pattern_len)', '& candidate_nodes["num_kernels"].gt(min_pattern_len)', ["C16"]),
